@@ -665,6 +665,19 @@ func (w *World) extraObligations(run *checkRun) {
 				run.items = append(run.items, workItem{fr, o})
 			}
 		}
+		// lifetime of the accumulators ("since the start of the same file"): who touches the accumulator
+		// variables, per function (the frame obligations of C08 restricted to the accumulators) - a function
+		// that starts to reset or replace them mid-file shows up as a new accessor
+		ffr := &FuncResult{Fn: "footprint"}
+		run.results = append(run.results, ffr)
+		for _, gc := range w.footprintChecks().checks {
+			if strings.HasPrefix(gc.name, "frame.fit.accumu") {
+				o := w.groundObligation(run.prop, gc)
+				o.Kind = "frame"
+				o.Fn = "footprint"
+				run.items = append(run.items, workItem{ffr, o})
+			}
+		}
 	case "C14":
 		// dyncrc16 is specified completely: every function and method of the package has a contract, so a new way
 		// of feeding the checksum cannot appear unverified
